@@ -19,7 +19,14 @@
       notification (`Workflow.notifyLost`) — the harness cannot tell the two apart; only considered when the harness
       attests that every task was running and acknowledged by the core well before DEPLOY gave up (`running-acked`);
     * watcherFirst — see `Trans.controlRpc`; only possible when a critical target went to ERROR / died in a
-      command that some target keeps waiting for its time-out.
+      command that some target keeps waiting for its time-out, or when the executor / agent of a critical live task
+      was lost during the request (`Trans.controlStep`: the state in the reply of a request that succeeded).
+
+  Executor / agent loss: an outcome may be written `(xfail BASE WHEN UPD)` / `(afail BASE WHEN UPD)` (BASE = ok | stay |
+  err | silent, WHEN = before | after, UPD = 1 | 0): the executor / agent of that task is lost while the command is
+  outstanding. The core runs one executor per agent, so every task on the same host is hit; tasks on that host without
+  a mark of their own are hit after their reply (`collateral`). The set of tasks hit is part of the observation
+  (`(lost i …)`, from the master's task table) and of the model's answer.
 -/
 import ControlModel.Model.Transition
 import ControlModel.Spec.C02
@@ -44,26 +51,52 @@ def parseLaunch : SExp → Option Launch
   | .atom "nohost" => some .nohost
   | _ => none
 
-def parseTask : SExp → Option (Bool × Launch)
-  | .list [c, .atom _mode, .atom _host, l] => do pure ((← c.bool?), (← parseLaunch l))
+def parseTask : SExp → Option ((Bool × Launch) × String)
+  | .list [c, .atom _mode, .atom host, l] => do pure (((← c.bool?), (← parseLaunch l)), host)
   | _ => none
 
-def parseStep (n : Nat) : SExp → Option SStep
+/-- An outcome, possibly with a loss mark of its own. -/
+def parseMarked : SExp → Option (Outcome × Option Loss)
+  | .list [.atom k, base, .atom w, upd] => do
+    let agent ← (if k == "xfail" then some false else if k == "afail" then some true else none)
+    let before ← (if w == "before" then some true else if w == "after" then some false else none)
+    let o ← parseOutcome base
+    if o = .undeliverable ∨ o = .dies then none else
+    pure (o, some { agent := agent, withUpdate := ← upd.bool?, before := before })
+  | x => do pure ((← parseOutcome x), none)
+
+/-- One executor per agent: the mark of a task hits every task on its host; the others are hit after their reply. -/
+def collateral (hosts : List String) (ms : List (Option Loss)) : List (Option Loss) :=
+  let marked := hosts.zip ms
+  marked.map (fun p =>
+    match p.2 with
+    | some l => some l
+    | none =>
+      match marked.find? (fun q => q.1 == p.1 && q.2.isSome) with
+      | some q => q.2.map (fun l => { l with before := false })
+      | none => none)
+
+def parseStep (hosts : List String) : SExp → Option SStep
   | .list (.atom "DIE" :: outs) => do
-    if outs.length ≠ n then none else pure (.die (← outs.mapM? parseOutcome))
+    if outs.length ≠ hosts.length then none else pure (.die (← outs.mapM? parseOutcome))
   | .list (.atom e :: outs) => do
-    if outs.length ≠ n then none else pure (.ctl (← Ev.parse? e) (← outs.mapM? parseOutcome) false)
+    if outs.length ≠ hosts.length then none else
+    let ms ← outs.mapM? parseMarked
+    let ls := ms.map (·.2)
+    pure (.ctl (← Ev.parse? e) (ms.map (·.1)) false (if ls.any (·.isSome) then collateral hosts ls else []))
   | _ => none
 
 def parseScenario (x : SExp) : Option (Cfg × Scenario) :=
   let go (cfg : Cfg) : List SExp → Option (Cfg × Scenario)
     | .list (.atom "wf" :: calls :: tasks) :: steps => do
-      let ts ← tasks.mapM? parseTask
+      let ths ← tasks.mapM? parseTask
+      let ts := ths.map (·.1)
       let wf : Workflow := { calls := ← calls.nat?, tasks := ts }
-      let ss ← steps.mapM? (parseStep ts.length)
+      let ss ← steps.mapM? (parseStep (ths.map (·.2)))
       match ss with
       | [] => pure (cfg, { wf := wf, configure := [], steps := [] })
-      | .ctl .CONFIGURE outs _ :: rest => pure (cfg, { wf := wf, configure := outs, steps := rest })
+      -- no loss inside NewEnvironment (the harness does not inject there)
+      | .ctl .CONFIGURE outs _ [] :: rest => pure (cfg, { wf := wf, configure := outs, steps := rest })
       | _ => none
     | _ => none
   match x with
@@ -80,7 +113,8 @@ def obsSx (o : Obs) : SExp :=
   let cmd := SExp.list (o.cmd.map SExp.ofNat)
   match o.ev with
   | none => .list ([.atom "new", .atom (rpcName o.rpc), st, af, cmd] ++ (if o.runningAcked then [.atom "running-acked"] else []))
-  | some e => .list [.atom "ctl", .atom e.name, .atom (rpcName o.rpc), st, af, cmd]
+  | some e => .list ([.atom "ctl", .atom e.name, .atom (rpcName o.rpc), st, af, cmd] ++
+      (if o.lost.isEmpty then [] else [.list (.atom "lost" :: o.lost.map SExp.ofNat)]))
 
 def parseRpc : String → Option Rpc
   | "ok" => some .ok | "err" => some .err | "hang" => some .hang | _ => none
@@ -97,6 +131,9 @@ def parseObs : SExp → Option Obs
   | .list [.atom "ctl", .atom e, .atom r, .atom s, .atom a, .list cmd] => do
     pure { ev := some (← Ev.parse? e), rpc := ← parseRpc r, state := ← parseSt s, after := ← parseSt a,
            cmd := ← cmd.mapM? SExp.nat? }
+  | .list [.atom "ctl", .atom e, .atom r, .atom s, .atom a, .list cmd, .list (.atom "lost" :: lost)] => do
+    pure { ev := some (← Ev.parse? e), rpc := ← parseRpc r, state := ← parseSt s, after := ← parseSt a,
+           cmd := ← cmd.mapM? SExp.nat?, lost := ← lost.mapM? SExp.nat? }
   | _ => none
 
 /-- Replies lost with the subscription: in a command with an undeliverable target, the targets that would have
@@ -120,8 +157,8 @@ def reqOuts (sc : Scenario) : Nat → List Outcome
 where go : Nat → List SStep → List Outcome
   | _, [] => []
   | n, .die _ :: r => go n r
-  | 0, .ctl _ o _ :: _ => o
-  | n + 1, .ctl _ _ _ :: r => go n r
+  | 0, .ctl _ o _ _ :: _ => o
+  | n + 1, .ctl _ _ _ _ :: r => go n r
 
 def mapReq (f : List Outcome → List Outcome) (sc : Scenario) : Nat → Scenario
   | 0 => { sc with configure := f sc.configure }
@@ -129,8 +166,8 @@ def mapReq (f : List Outcome → List Outcome) (sc : Scenario) : Nat → Scenari
 where go : Nat → List SStep → List SStep
   | _, [] => []
   | n, .die o :: r => .die o :: go n r
-  | 0, .ctl e o w :: r => .ctl e (f o) w :: r
-  | n + 1, .ctl e o w :: r => .ctl e o w :: go n r
+  | 0, .ctl e o w ls :: r => .ctl e (f o) w ls :: r
+  | n + 1, .ctl e o w ls :: r => .ctl e o w ls :: go n r
 
 /-- The master saw only `seen` of the last request's commands. -/
 def restrictLast (seen : List Nat) : List Obs → List Obs
@@ -139,7 +176,8 @@ def restrictLast (seen : List Nat) : List Obs → List Obs
   | o :: r => o :: restrictLast seen r
 
 /-- The watcher can only get in first if a critical commanded task went to ERROR (error reply with state ERROR,
-    or death) while the command as a whole waits for somebody's time-out. -/
+    or death) while the command as a whole waits for somebody's time-out — or if a critical live task was lost during
+    the request (see `gate`). -/
 def watcherPossible (ts : List Target) : Bool :=
   ts.any (fun t => t.1 && (t.2 = .errorReplyToError || t.2 = .dies)) &&
   ts.any (fun t => t.2 = .silent || t.2 = .dies)
@@ -147,8 +185,9 @@ def watcherPossible (ts : List Target) : Bool :=
 def gate (w : Bool) (tasks : List Task) : List SStep → List SStep
   | [] => []
   | .die outs :: rest => .die outs :: gate w (afterCommand tasks outs) rest
-  | .ctl e outs _ :: rest =>
-    .ctl e outs (w && watcherPossible (targets (pair tasks outs))) :: gate w (afterCommand tasks outs) rest
+  | .ctl e outs _ ls :: rest =>
+    .ctl e outs (w && (watcherPossible (targets (pair tasks (effOuts ls outs))) || critLost ls tasks)) ls ::
+      gate w (loseTasks ls (afterCommand tasks (effOuts ls outs))) rest
 
 /-- The harness cannot tell which updates overtook the roster: all of them, in the variant. -/
 def early (wf : Workflow) : Workflow :=
@@ -157,7 +196,7 @@ def early (wf : Workflow) : Workflow :=
 def variant (sc : Scenario) (lossy w : Bool) : Scenario :=
   let conf := if lossy then lose sc.configure else sc.configure
   let steps := if lossy then sc.steps.map (fun s => match s with
-      | .ctl e outs f => .ctl e (lose outs) f
+      | .ctl e outs f ls => .ctl e (lose outs) f ls
       | s => s) else sc.steps
   let tasks : List Task := sc.wf.tasks.map (fun t => { critical := t.1, active := t.2 = .ok })
   { sc with configure := conf, steps := gate w (afterCommand tasks conf) steps }
